@@ -63,6 +63,12 @@ class ExprMixin:
             cond_g = z3.Implies(z3.And(*self.guards), cond) if self.guards else cond
         else:
             cond_g = cond
+        if self.cur is not None and getattr(self.cur, "exceptions_not_checked", False):
+            # the contract is explicitly about the normal runs of the fragment only: `if it raises nothing, then ...`;
+            # the condition is assumed, the omission is recorded in the evidence
+            self.used_models.add("exception freedom NOT checked for this fragment (contract option exceptions_not_checked)")
+            st.assume(cond_g)
+            return
         self.emit(st, cond_g, "safety:" + kind, node, label)
         st.assume(cond_g)
 
